@@ -424,32 +424,7 @@ def facts(net, reg, case, net_eq=None):
         else:
             continue
         break
-    if eq == "xward" and reg["detached_boundary"]:
-        f.append("boundary-bus-without-external-neighbour")
-    if eq == "xward" and not _shunt_admittance_in(net, E):
-        f.append("external-area-without-shunt-admittance")
     return f
-
-
-def _shunt_admittance_in(net, E):
-    """does anything at / between the external buses contribute to the row sums of the admittance matrix?"""
-    if _has(net, ("shunt", "ward", "xward", "gen", "ext_grid"), E):     # xward method: PV buses get Y = 1e8
-        return True
-    ln = net.line[net.line.in_service & (net.line.from_bus.isin(E) | net.line.to_bus.isin(E))]
-    if ((ln.c_nf_per_km != 0) | (ln.g_us_per_km != 0)).any():
-        return True
-    tr = net.trafo[net.trafo.in_service & (net.trafo.hv_bus.isin(E) | net.trafo.lv_bus.isin(E))]
-    if len(tr):     # off-nominal ratio or magnetising branch
-        return True
-    t3 = net.trafo3w[net.trafo3w.in_service & (net.trafo3w.hv_bus.isin(E) | net.trafo3w.mv_bus.isin(E) | net.trafo3w.lv_bus.isin(E))]
-    if len(t3):
-        return True
-    im = net.impedance[net.impedance.in_service & (net.impedance.from_bus.isin(E) | net.impedance.to_bus.isin(E))]
-    if len(im) and (im[["gf_pu", "bf_pu", "gt_pu", "bt_pu"]].values != 0).any():
-        return True
-    if len(im) and ((im.rft_pu != im.rtf_pu) | (im.xft_pu != im.xtf_pu)).any():
-        return True
-    return False
 
 
 def _cause(net, reg, case, e):
@@ -459,9 +434,7 @@ def _cause(net, reg, case, e):
     where = exc_sig(e)
     f = facts(net, reg, case)
     want = {"ValueError@grid_equivalents/ward_generation.py:_calculate_ward_and_impedance_parameters": ("fused-boundary-buses-given",),
-            "ValueError@build_bus.py:_calc_pq_elements_and_add_on_ppc": ("zip-load-in-external-area",),
-            "FloatingPointError@pypower/makeYbus.py:branch_vectors": ("boundary-bus-without-external-neighbour",
-                                                                      "external-area-without-shunt-admittance")}
+            "ValueError@build_bus.py:_calc_pq_elements_and_add_on_ppc": ("zip-load-in-external-area",)}
     for k in want.get(where, ()):
         if k in f:
             return k
